@@ -219,9 +219,31 @@ def check_handlers(ctx: Context, rep, rule: str, forwarded_ok: set[int]) -> None
                 if isinstance(node, ast.Call):
                     q = ctx.names(fn, node)
                     if any(x.endswith("contextlib.suppress") for x in q):
-                        rep.ob(rule, False, loc=fn.loc(node), where=fn.qualname,
+                        # `with suppress(E): BODY` is `try: BODY except E: pass`
+                        # and is judged like that handler
+                        names = [dotted(a) or ast.unparse(a) for a in node.args]
+                        control = bool(names) and all(
+                            x in CONTROL_FLOW or x.rsplit(".", 1)[-1]
+                            in CONTROL_FLOW for x in names)
+                        table = HANDLER_EXCEPTIONS.get(
+                            (fn.qualname, tuple(names)))
+                        ok = control
+                        why = "control-flow only" if control else \
+                            "swallows the error"
+                        w = parent(node)
+                        while w is not None and not isinstance(
+                                w, (ast.With, ast.AsyncWith)):
+                            w = parent(w)
+                        if table is not None and w is not None:
+                            reads = [c for s in w.body for c in ast.walk(s)
+                                     if isinstance(c, ast.Call) and "FS_READ" in
+                                     ctx.effects(fn, c)]
+                            ok = not reads
+                            why = f"table exception: {table}"
+                        rep.ob(rule, ok, loc=fn.loc(node), where=fn.qualname,
                                construct=short(node),
-                               message="contextlib.suppress on a read path")
+                               message="contextlib.suppress on a read path: "
+                               + why)
                 if isinstance(node, ast.Call):
                     f = node.func
                     nm = f.attr if isinstance(f, ast.Attribute) else (
